@@ -56,15 +56,16 @@ var primWriters = map[string]string{"writeUint64": "u64", "writeUint32": "u32", 
 var primReaders = map[string]string{"readUint64": "u64", "readUint32": "u32", "readUint8": "u8", "readBool": "bool", "readBytes": "bytes", "readString": "string"}
 
 type grammarCtx struct {
-	h      H
-	info   *types.Info
-	fd     *ast.FuncDecl
-	enc    bool
-	recv   string            // receiver identifier
-	stream string            // name of the io.Writer / io.Reader parameter (or expression like conn.bufw)
-	locals map[string]string // local -> receiver field it stands for
-	errs   []string          // error-discipline problems found
-	nCalls int
+	h           H
+	info        *types.Info
+	fd          *ast.FuncDecl
+	enc         bool
+	recv        string            // receiver identifier
+	stream      string            // name of the io.Writer / io.Reader parameter (or expression like conn.bufw)
+	locals      map[string]string // local -> receiver field it stands for
+	errs        []string          // error-discipline problems found
+	streamAlias map[string]bool
+	nCalls      int
 }
 
 func exprStr(e ast.Expr) string {
@@ -223,7 +224,7 @@ func (g *grammarCtx) fieldOfDecodeTarget(e ast.Expr) string {
 func (g *grammarCtx) streamCall(c *ast.CallExpr) (tok, bool) {
 	usesStream := false
 	for _, a := range c.Args {
-		if exprStr(a) == g.stream {
+		if exprStr(a) == g.stream || g.streamAlias[exprStr(a)] {
 			usesStream = true
 		}
 	}
@@ -299,6 +300,23 @@ func (g *grammarCtx) nestedSource(x ast.Expr) string {
 		return out
 	}
 	return ""
+}
+
+// endsWithSuccessReturn: the block's last statement returns with a nil error
+// (or returns nothing).
+func endsWithSuccessReturn(b *ast.BlockStmt) bool {
+	if len(b.List) == 0 {
+		return false
+	}
+	r, ok := b.List[len(b.List)-1].(*ast.ReturnStmt)
+	if !ok {
+		return false
+	}
+	if len(r.Results) == 0 {
+		return true
+	}
+	id, ok := r.Results[len(r.Results)-1].(*ast.Ident)
+	return ok && id.Name == "nil"
 }
 
 func isErrIsNil(e ast.Expr) bool {
@@ -396,8 +414,25 @@ func (g *grammarCtx) block(stmts []ast.Stmt) []tok {
 			case *ast.IfStmt:
 				el = g.block([]ast.Stmt{e})
 			}
+			// `if c { ...; return nil }` followed by more steps: the rest of the
+			// block is the else branch (a successful early exit, not a validation
+			// failure, which returns a non-nil error and is no part of the grammar)
+			restIsElse := x.Else == nil && endsWithSuccessReturn(x.Body) && i+1 < len(stmts)
+			if restIsElse {
+				el = g.block(stmts[i+1:])
+			}
+			cond := g.condStr(x.Cond)
+			// polarity: alternatives are written for the positive form of the test
+			if f := strings.Fields(cond); len(f) >= 3 && f[1] == "!=" && !(strings.HasSuffix(cond, "!= 0") || strings.HasSuffix(cond, "!= \"\"") || strings.HasSuffix(cond, "!= nil")) {
+				f[1] = "=="
+				cond = strings.Join(f, " ")
+				th, el = el, th
+			}
 			if len(th) > 0 || len(el) > 0 {
-				out = append(out, tok{Kind: "alt", Cond: g.condStr(x.Cond), Then: th, Else: el, Pos: x.Pos()})
+				out = append(out, tok{Kind: "alt", Cond: cond, Then: th, Else: el, Pos: x.Pos()})
+			}
+			if restIsElse {
+				return out
 			}
 		case *ast.ForStmt:
 			body := g.block(x.Body.List)
@@ -437,6 +472,16 @@ func (g *grammarCtx) block(stmts []ast.Stmt) []tok {
 			}
 		case *ast.BlockStmt:
 			out = append(out, g.block(x.List)...)
+		case *ast.LabeledStmt:
+			// `L: switch { default: … break L … }` is a block with early exits (the
+			// shape an expanded helper takes, core/inline.go)
+			if sw, ok := x.Stmt.(*ast.SwitchStmt); ok && sw.Tag == nil && sw.Init == nil && len(sw.Body.List) == 1 {
+				if cl := sw.Body.List[0].(*ast.CaseClause); cl.List == nil {
+					out = append(out, g.block(cl.Body)...)
+					continue
+				}
+			}
+			out = append(out, g.block([]ast.Stmt{x.Stmt})...)
 		case *ast.ReturnStmt:
 			ts := g.stmtToks(x)
 			out = append(out, ts...)
@@ -574,6 +619,20 @@ func (h H) grammarOf(fn *ssa.Function, enc bool, stream string) ([]tok, *grammar
 		}
 	}
 	g.collectLocals()
+	// locals that are plain names for the stream (`bufr := c.bufr`)
+	g.streamAlias = map[string]bool{}
+	ast.Inspect(fd.Body, func(n ast.Node) bool {
+		as, ok := n.(*ast.AssignStmt)
+		if !ok || len(as.Lhs) != len(as.Rhs) {
+			return true
+		}
+		for i, r := range as.Rhs {
+			if id, isId := as.Lhs[i].(*ast.Ident); isId && (exprStr(r) == g.stream || g.streamAlias[exprStr(r)]) {
+				g.streamAlias[id.Name] = true
+			}
+		}
+		return true
+	})
 	return g.block(fd.Body.List), g
 }
 
@@ -588,6 +647,11 @@ func kinds(ts []tok) string {
 			// `if count > 0 { for ... }` is the same grammar as the bare count-driven loop
 			if len(t.Else) == 0 && len(t.Then) == 1 && t.Then[0].Kind == "loop" && (strings.HasSuffix(t.Cond, "> 0") || strings.HasSuffix(t.Cond, "!= 0")) {
 				s = append(s, "loop{"+kinds(t.Then[0].Then)+"}")
+				continue
+			}
+			// and so is `if count == 0 { return nil }` in front of the loop
+			if len(t.Then) == 0 && len(t.Else) == 1 && t.Else[0].Kind == "loop" && strings.HasSuffix(t.Cond, "== 0") {
+				s = append(s, "loop{"+kinds(t.Else[0].Then)+"}")
 				continue
 			}
 			s = append(s, "alt{"+kinds(t.Then)+"|"+kinds(t.Else)+"}")
@@ -620,6 +684,10 @@ func conds(ts []tok) []string {
 		if t.Kind == "alt" {
 			if len(t.Else) == 0 && len(t.Then) == 1 && t.Then[0].Kind == "loop" {
 				out = append(out, conds(t.Then)...)
+				continue
+			}
+			if len(t.Then) == 0 && len(t.Else) == 1 && t.Else[0].Kind == "loop" && strings.HasSuffix(t.Cond, "== 0") {
+				out = append(out, conds(t.Else)...)
 				continue
 			}
 			out = append(out, t.Cond)
